@@ -9,6 +9,16 @@
 open C01_model
 open Conv
 
+(* a 10^5-line blob is a list of 4*10^5 bytes and the extracted / List functions are not tail recursive: the driver
+   re-executes itself once under a larger stack limit (stdin has not been touched yet) *)
+let () =
+  if (try Sys.getenv "VERIF_BIGSTACK" <> "1" with Not_found -> true) then begin
+    Unix.putenv "VERIF_BIGSTACK" "1";
+    (try Unix.execv "/bin/sh"
+           [| "/bin/sh"; "-c"; "ulimit -s 4194304 2>/dev/null || ulimit -s unlimited 2>/dev/null; exec \"$0\" \"$@\""; Sys.executable_name |]
+     with _ -> ())
+  end
+
 let zi = z_of_int
 let iz = int_of_z
 let ints s = List.map int_of_sx (list_of_sx s)
